@@ -145,6 +145,7 @@ type c05world struct {
 	msgs   []*sentMsg
 	pool   []dgram
 	defrag map[uint32]*Defragger
+	held   []heldOut // every message the reassembler has emitted, kept like a queuing receiver would
 	log    map[uint32][]dlvRec
 	sids   []uint32
 	used   map[uint32]map[uint16]bool
@@ -424,6 +425,9 @@ func (w *c05world) deliver(d dgram, how string) {
 		}
 	}
 	hit.emitted++
+	// "delivered byte-identical": a receiver may keep what it was handed (queues, batches); the
+	// payload must stay identical while later messages are reassembled
+	w.held = append(w.held, heldOut{out, hit})
 	if hit.nfrag > 1 {
 		x.Probe("reassembled")
 		if hit.outOfOrd {
@@ -520,6 +524,12 @@ func execC05(x *hysim.Run) {
 				m.mustEmit = true
 			}
 			i = j
+		}
+	}
+	for _, h := range w.held {
+		if h.out.SessionID != h.msg.sid || h.out.Addr != h.msg.addr || string(h.out.Data) != string(h.msg.data) {
+			x.Violate("delivered-payload-overwritten", "m%d was delivered intact, but the delivered message changed afterwards (payload now differs at byte %d of %d): the reassembler reuses memory it has handed out", h.msg.idx, firstDiff(h.msg.data, h.out.Data), len(h.msg.data))
+			return
 		}
 	}
 	for _, m := range w.msgs {
@@ -770,4 +780,10 @@ func genC05Big(r *hysim.Rand, tier string) *hysim.Script {
 	s.drain(r, r.Intn(5), 0, r.Pick(0, 100), 0)
 	sc.Ops = s.ops
 	return sc
+}
+
+
+type heldOut struct {
+	out *protocol.UDPMessage
+	msg *sentMsg
 }
